@@ -18,6 +18,11 @@ THEOREMS = [
     ("EG.props.C20", "C20_model_is_per_name"),
     ("EG.props.C20", "C20_late_watcher_equals_snapshot"),
     ("EG.props.C20", "C20_apply_exactly_once"),
+    ("EG.props.C20", "C20_checker_sound"),
+    ("EG.props.C20", "C20_checker_sound_any_group"),
+    ("EG.props.C20", "C20_spec_word_sound"),
+    ("EG.props.C20", "C20_run_start_spec"),
+    ("EG.props.C20", "C20_checker_reappears"),
 ]
 HARNESSES = [
     dict(name="sup", pkg="pkg/supervisor", files=["harness/supervisor/zz_verif_c20_test.go"],
